@@ -269,6 +269,17 @@ def run(run: Run):
     from . import c18
     run.rule('C11.R6', 'the reader delivers every row and cell of an area (append-only data lists; shared with C18.R1)')
     borrow(run, 'C11.R6', c18.r1, src)
+    # a function result depends on its arguments only: no runtime helper keeps results or other state between calls
+    from .common import borrow as _borrow
+    from . import c08 as _c08
+    from ..callgraph import get_callgraph as _gcg
+    from ..source import get_source as _gs
+    from ..runtime import get_runtime as _grt
+    run.rule('C11.R8', 'runtime helpers are pure functions of their arguments: no write effects, no value cache (shared with C08.R1/R4)')
+    _src = _gs()
+    _borrow(run, 'C11.R8', _c08.r1, _src, _grt(_src), _gcg(_src))
+    _borrow(run, 'C11.R8', _c08.r4, _src, _grt(_src))
+    run.floor('C11.R8', 50)
     run.floor('C11.R6', 5)
     from . import c02
     run.rule('C11.R7', 'an area argument enumerates every cell incl. the last row/column, each once (shared with C02.R2/R4)')
